@@ -81,6 +81,24 @@ func nativeReplay(cex *CounterEx, ph PropHarness, file string) replayOutcome {
 	if bout, err := build.CombinedOutput(); err != nil {
 		return replayOutcome{Result: "build-error", Output: tail(string(bout), 3000)}
 	}
+	attempts := 1
+	if cex.RandomOrder {
+		attempts = 12
+	}
+	var ro replayOutcome
+	for i := 0; i < attempts; i++ {
+		ro = runReplayBinary(cex, bin, tmp, env)
+		if ro.Reproduced || ro.Result != "ok" {
+			break
+		}
+	}
+	if cex.RandomOrder && ro.Reproduced {
+		ro.Result += " (random peer order: one of up to 12 native runs)"
+	}
+	return ro
+}
+
+func runReplayBinary(cex *CounterEx, bin, tmp string, env []string) replayOutcome {
 	cmd := exec.Command(bin, "-test.run", "^TestZZReplay$", "-test.v", "-test.timeout", "120s")
 	cmd.Dir = tmp
 	cmd.Env = env
